@@ -683,6 +683,32 @@ func (c *FnCtx) callFunc(st *State, call *ast.CallExpr, fn *types.Func, recv *Va
 		c.addObl(&Obligation{Name: nm, Kind: "call-requires", Descr: "precondition of " + key, Pos: c.pos(call), Hyps: append([]string(nil), st.pc...), Goal: t, Clause: r.Src})
 		st.assume(t)
 	}
+	// shared state that other threads may have changed before the lock was obtained
+	if len(con.HavocRegions) > 0 {
+		ms := newModSet()
+		for hk := range st.heap {
+			for _, rn := range con.HavocRegions {
+				for _, r := range c.V.specs.Regions {
+					if r.Name != rn {
+						continue
+					}
+					base := hk
+					for {
+						if r.has(base) {
+							ms.heap[hk] = true
+							break
+						}
+						i := strings.LastIndex(base, ".")
+						if i < 0 {
+							break
+						}
+						base = base[:i]
+					}
+				}
+			}
+		}
+		c.havoc(st, ms, "interf")
+	}
 	// modifies
 	if con.ModAll {
 		ms := newModSet()
@@ -1561,6 +1587,13 @@ func (c *FnCtx) assertGates(st *State, call *ast.CallExpr, fn *types.Func, recv 
 		}
 	}
 	if handler && recv != nil {
+		for _, g := range c.con.Gates {
+			if g.Except[fn.Name()] {
+				continue
+			}
+			ge := c.specEnvAt(st, c.fd.Body.Rbrace)
+			mk(g.Name, "gate "+g.Name+" holds at every handler call: "+g.Cond.Src, c.specBool(ge, g.Cond.Expr))
+		}
 		env := &SpecEnv{c: c, st: st, lookup: func(n string) *Val {
 			if n == "s" {
 				return recv
